@@ -12,9 +12,9 @@ namespace Sqlize
 
 /-- the `ColumnDef` visit: `AddColumn("", {name, add, type, options, comment})` -/
 def ColDef.toColumn (c : ColDef) : Column :=
-  -- `comment = def.Options[i].StrValue` of the COMMENT option: pingcap keeps the text in `Expr`, `StrValue` is
-  -- empty, so the `Comment` attribute of a column read from MySQL DDL is always "" (validated by correspondence)
-  { name := c.name, action := .add, cur := { typ := some c.typ, opts := c.opts, comment := "" } }
+  -- the comment is the text of the (last) COMMENT option: `StrValue`, or the option's expression value
+  let comment := ((c.opts.filter (·.kind == .comment)).getLast?.map (·.text)).getD ""
+  { name := c.name, action := .add, cur := { typ := some c.typ, opts := c.opts, comment := comment } }
 
 def AddPos.toPos? : AddPos → Option Pos
   | .none => Option.none
